@@ -55,6 +55,26 @@ def ensure_rows(E, x: Tensor):
     if x.rows is not None:
         return x.rows
     k = x.ndim - 1
+    # canonical row function: two tensors of the same shape whose generic element is
+    # the SAME term (z3 hash-consing) are the same tensor, hence share their rows -
+    # a specification that mirrors a computation then feeds identical rows to networks
+    cache = E.st.ghost.setdefault("mkrow_cache", {})
+    ckey = None
+    try:
+        probe = C.to_z3(x.at(*[z3.Int(f"rowprobe!{j}") for j in range(k + 1)]))
+        ckey = (k, tuple(d if isinstance(d, int) else d.z.get_id() for d in x.shape), probe.get_id())
+    except (PyRaise, Unsupported, z3.Z3Exception):
+        probe = None
+    if ckey is not None and ckey in cache:
+        x.rows = cache[ckey][0]
+        return x.rows
+    rows = _fresh_rows(E, x, k)
+    if ckey is not None:
+        cache[ckey] = (rows, probe, x)  # keep the probe term alive (AST ids are reused after GC)
+    return rows
+
+
+def _fresh_rows(E, x, k):
     base = E.st.fresh_name("mkrow")
     if k:
         rf = z3.Function(base, *([INT] * k + [ROW]))
